@@ -23,7 +23,19 @@ func HUpdateRule() {
 	defer fsys.Cleanup()
 	kind := nd_range(0, 3)
 	dstData := nd_bytes(m)
-	dsec := int64(nd_i32())
+	// seconds: int32 range, or (narrow instances) a few bits around zero so that real
+	// time arithmetic (multiplication/division by 1e9) stays decidable for the solver
+	secbits := vparam("secbits")
+	symSec := func() int64 {
+		v := int64(nd_i32())
+		if secbits > 0 {
+			lim := int64(1) << uint(secbits-1)
+			vassume(v >= -lim)
+			vassume(v < lim)
+		}
+		return v
+	}
+	dsec := symSec()
 	dnsec := int64(nd_u32())
 	vassume(dnsec < 1000000000)
 	switch kind {
@@ -38,9 +50,14 @@ func HUpdateRule() {
 	opts := &TransferOpts{AlwaysChecksum: c, IgnoreTimes: ign, DryRun: dry, PreserveTimes: nd_bool(), PreservePerms: nd_bool()}
 	conn := newVconn(nil)
 	rt := newRecvTransfer(fsys, conn, nd_i32(), opts)
-	ssec := int64(nd_i32())
+	ssec := symSec()
 	f := &File{Name: "f", Length: nd_i64(), ModTime: time.Unix(ssec, 0), Mode: 0o100644}
-	copy(f.Checksum[:], nd_bytes(16))
+	if nd_bool() {
+		// the sender's checksum of identical content (computed, so that native replays agree)
+		copy(f.Checksum[:], plainSum(dstData))
+	} else {
+		copy(f.Checksum[:], nd_bytes(16))
+	}
 
 	err := rt.recvGenerator(0, f)
 	vassert(err == nil, "generator failed in a situation the update rule covers")
